@@ -19,7 +19,8 @@ use crate::refimpl;
 type Model = BTreeMap<String, String>;
 
 fn content(q: &Qualifiers) -> Vec<(String, String)> {
-    q.iter().map(|(k, v)| (k.as_str().to_owned(), v.to_owned())).collect()
+    // the key both ways it can be turned into text (as_str, and to_string through Deref<Target = str>)
+    q.iter().map(|(k, v)| { let a = k.as_str().to_owned(); let b = k.to_string(); (if a == b { a } else { format!("{a}!={b}") }, v.to_owned()) }).collect()
 }
 
 fn model_of(c: &[(String, String)]) -> Model {
